@@ -249,3 +249,49 @@ Print Assumptions C18_batch_checker_sound.
 Print Assumptions C18_node_induced_checker_sound.
 Print Assumptions C18_edge_induced_checker_sound.
 Print Assumptions C18_prune_checker_sound.
+
+(** ** soundness of the remaining checkers (tensor form, raw decoding, adjacency matrix) *)
+From FGV Require Import Spec.TorchSpec2 Proofs.TorchCheckSound2.
+
+(* an implementation tensor accepted for a graph of the conversion domain has the graph's meaning:
+   reference atomic numbers, indices in range, two columns per edge, arc i -> j with row [g, h] exactly
+   when the i-th and j-th node are bonded with (g, h); outside the domain only a refusal is accepted *)
+Theorem C18_to_torch_checker_sound :
+  (forall g t, to_torch_domainb g = true -> to_torch_okb g (Ok t) = true -> to_torch_meaning g t) /\
+  (forall g out, to_torch_domainb g = false -> to_torch_okb g out = true -> exists e, out = Err e).
+Proof. exact (conj to_torch_okb_sound to_torch_okb_refuses). Qed.
+
+(* a graph accepted as the decoding of a raw single tensor of the checker's domain is the graph meaning
+   of that tensor (nodes 0..n-1 with the reference symbols, label of the last joining column, nothing
+   else); for a batch the accepted list has one well-formed, 0..k-1 numbered graph per batch id and
+   accounts for every node; shapes never mix *)
+Theorem C18_from_torch_checker_sound :
+  (forall t g', t_batch t = None -> raw_domainb t = true ->
+     from_torch_okb (Ok t) (Ok (One g')) = true -> raw_graph_spec t g') /\
+  (forall t b gs, t_batch t = Some b ->
+     from_torch_okb (Ok t) (Ok (Many gs)) = true -> raw_batch_spec t b gs) /\
+  (forall t out, from_torch_okb (Ok t) out = true ->
+     match t_batch t, out with
+     | None, Ok (Many _) => raw_domainb t = false
+     | Some _, Ok (One _) => False
+     | _, _ => True
+     end).
+Proof. exact (conj from_torch_okb_sound_single (conj from_torch_okb_sound_batch from_torch_okb_shape)). Qed.
+
+(* an accepted adjacency matrix is n x n with entry (i, j) = 1 exactly for the columns (i, j) *)
+Theorem C18_adjacency_checker_sound : forall t m,
+  forallb (in_rangeb (List.length (t_x t))) (t_ei t) = true ->
+  adjacency_okb t (Ok m) = true -> adjacency_spec t m.
+Proof. exact adjacency_okb_sound. Qed.
+
+(* non-vacuity: the model's own outputs on the examples pass these checkers *)
+Example C18_example_checkers2 :
+  to_torch_okb ex_g (its_to_torch1 ex_g) = true
+  /\ from_torch_okb (its_to_torch1 ex_g) (bind (its_to_torch1 ex_g) its_from_torch) = true
+  /\ raw_domainb (mkT [[6]; [17]; [8]] [(0, 2); (2, 0); (1, 2); (2, 1)] (Some [[2; 4]; [2; 4]; [3; 2]; [3; 2]]) None) = true
+  /\ adjacency_okb ex_p5 (get_adjacency_matrix ex_p5) = true.
+Proof. vm_compute. repeat split; reflexivity. Qed.
+
+Print Assumptions C18_to_torch_checker_sound.
+Print Assumptions C18_from_torch_checker_sound.
+Print Assumptions C18_adjacency_checker_sound.
